@@ -329,7 +329,36 @@ class SymStr(Proxy):
     def __contains__(self, o):
         return bool(SymBool(z3.Contains(self.t, S(o))))
 
+    def _parts(self):
+        """literal / symbolic pieces of the term (syntactic)"""
+        def flat(t):
+            if z3.is_app(t) and t.decl().kind() == z3.Z3_OP_SEQ_CONCAT:
+                out = []
+                for c in t.children():
+                    out.extend(flat(c))
+                return out
+            if z3.is_string_value(t):
+                return [t.as_string()] if t.as_string() else []
+            return [t]
+        return flat(self.t)
+
+    @staticmethod
+    def _from_parts(parts):
+        terms = [z3.StringVal(p) if isinstance(p, str) else p for p in parts]
+        if not terms:
+            return ""
+        if all(isinstance(p, str) for p in parts):
+            return "".join(parts)
+        return SymStr(terms[0] if len(terms) == 1 else z3.Concat(*terms))
+
     def __getitem__(self, i):
+        # a literal at the end of the term answers s[-1] and s[:-1] syntactically (exact)
+        if i == -1 or (isinstance(i, slice) and i.start is None and i.stop == -1 and i.step is None):
+            parts = self._parts()
+            if parts and isinstance(parts[-1], str) and "\\u{" not in parts[-1]:
+                if i == -1:
+                    return parts[-1][-1]
+                return self._from_parts(parts[:-1] + ([parts[-1][:-1]] if parts[-1][:-1] else []))
         if isinstance(i, slice):
             if i.step is not None:
                 self._loud("slice step")
